@@ -410,27 +410,33 @@ structure YParsed where
   salt : Bytes          -- the bytes handed to the KDF
   deriving DecidableEq, Repr
 
-/-- the parameter/salt parser of `yescrypt_r` (setting[1] ∈ {'7','y'}), including the `need > buflen` test -/
-def parseYescrypt (setting : Bytes) (buflen : Nat) : Option YParsed :=
+/-- the salt part of `yescrypt_r`'s parser: everything after the parameters -/
+def yFinish (setting : Bytes) (buflen : Nat) (P : YParams) (prefixlen : Nat) : Option YParsed :=
+  let saltstr := setting.drop prefixlen
+  let saltstrlen := match strrchr saltstr 36 with | some k => k | none => saltstr.length
+  let salt? : Option Bytes :=
+    if cat setting 1 = 55 then some (saltstr.take saltstrlen)
+    else yDecode64 (saltstr.take saltstrlen) 64
+  match salt? with
+  | none => none
+  | some salt =>
+    let need := prefixlen + saltstrlen + 1 + Gen.YESCRYPT_HASH_LEN + 1
+    if need > buflen then none else
+    some { params := P, prefixlen := prefixlen, saltstrlen := saltstrlen, salt := salt }
+
+/-- one optional field (p, t, g, NROM) of the `$y$` parameter string: (value, index after it) -/
+def yOpt (setting : Bytes) (cond : Bool) (i min dflt : Nat) : Option (Nat × Nat) :=
+  if cond then (yDec32 setting i min).map fun (v, n) => (v, i + n) else some (dflt, i)
+
+/-- the parameter part: (parameters, length of the prefix that holds them) -/
+def yParams (setting : Bytes) : Option (YParams × Nat) :=
   let s (i : Nat) := cat setting i
   if s 0 ≠ 36 ∨ (s 1 ≠ 55 ∧ s 1 ≠ 121) ∨ s 2 ≠ 36 then none else
-  let finish (P : YParams) (prefixlen : Nat) : Option YParsed :=
-    let saltstr := setting.drop prefixlen
-    let saltstrlen := match strrchr saltstr 36 with | some k => k | none => saltstr.length
-    let salt? : Option Bytes :=
-      if s 1 = 55 then some (saltstr.take saltstrlen)
-      else yDecode64 (saltstr.take saltstrlen) 64
-    match salt? with
-    | none => none
-    | some salt =>
-      let need := prefixlen + saltstrlen + 1 + Gen.YESCRYPT_HASH_LEN + 1
-      if need > buflen then none else
-      some { params := P, prefixlen := prefixlen, saltstrlen := saltstrlen, salt := salt }
   if s 1 = 55 then
     let nlog := yAtoi (s 3)
     if nlog < 1 ∨ nlog > 63 then none else
     match yDecFixed30 setting 4, yDecFixed30 setting 9 with
-    | some r, some p => finish { flags := 0, N := 2 ^ nlog, r := r, p := p, t := 0, g := 0, NROM := 0 } 14
+    | some r, some p => some ({ flags := 0, N := 2 ^ nlog, r := r, p := p, t := 0, g := 0, NROM := 0 }, 14)
     | _, _ => none
   else
     match yDec32 setting 3 0 with
@@ -454,31 +460,35 @@ def parseYescrypt (setting : Bytes) (buflen : Nat) : Option YParsed :=
           | some (r, n3) =>
             let i3 := i2 + n3
             if s i3 = 36 then
-              finish { flags := flags, N := 2 ^ nlog, r := r, p := 1, t := 0, g := 0, NROM := 0 } (i3 + 1)
+              some ({ flags := flags, N := 2 ^ nlog, r := r, p := 1, t := 0, g := 0, NROM := 0 }, i3 + 1)
             else
               match yDec32 setting i3 1 with
               | none => none
               | some (have_, n4) =>
                 let i4 := i3 + n4
-                -- optional p, t, g, NROM in this order
-                let optField (cond : Bool) (i : Nat) (min dflt : Nat) : Option (Nat × Nat) :=
-                  if cond then (yDec32 setting i min).map fun (v, n) => (v, i + n) else some (dflt, i)
-                match optField (have_ % 2 = 1) i4 2 1 with
+                match yOpt setting (have_ % 2 = 1) i4 2 1 with
                 | none => none
                 | some (p, i5) =>
-                  match optField (have_ / 2 % 2 = 1) i5 1 0 with
+                  match yOpt setting (have_ / 2 % 2 = 1) i5 1 0 with
                   | none => none
                   | some (t, i6) =>
-                    match optField (have_ / 4 % 2 = 1) i6 1 0 with
+                    match yOpt setting (have_ / 4 % 2 = 1) i6 1 0 with
                     | none => none
                     | some (g, i7) =>
-                      match optField (have_ / 8 % 2 = 1) i7 1 0 with
+                      match yOpt setting (have_ / 8 % 2 = 1) i7 1 0 with
                       | none => none
                       | some (nromlog, i8) =>
                         if have_ / 8 % 2 = 1 ∧ nromlog > 63 then none else
                         if s i8 ≠ 36 then none else
-                        finish { flags := flags, N := 2 ^ nlog, r := r, p := p, t := t, g := g,
-                                 NROM := if have_ / 8 % 2 = 1 then 2 ^ nromlog else 0 } (i8 + 1)
+                        some ({ flags := flags, N := 2 ^ nlog, r := r, p := p, t := t, g := g,
+                                 NROM := if have_ / 8 % 2 = 1 then 2 ^ nromlog else 0 }, i8 + 1)
+
+/-- the parameter/salt parser of `yescrypt_r` (setting[1] ∈ {'7','y'}), including the `need > buflen` test:
+    the parameters (read below `prefixlen`), then the salt string up to the last `$` -/
+def parseYescrypt (setting : Bytes) (buflen : Nat) : Option YParsed :=
+  match yParams setting with
+  | none => none
+  | some (P, prefixlen) => yFinish setting buflen P prefixlen
 
 /-- the parameter sanity checks of `yescrypt_kdf` / `yescrypt_kdf_body` (no ROM: `shared == NULL`),
     i.e. everything that makes the KDF fail before it allocates memory -/
